@@ -75,9 +75,10 @@ package log
 //@ iface Logger.GetLevel
 //@   pure_const
 
+// (the logger may return the event to the pool: the caller must not touch it afterwards)
 //@ iface Logger.Append
-//@   requires e != nil
-//@   modifies appended[this], lastLevel[this], lastTag[this], lastFields[this], lastFile[this], lastLine[this], lastTime[this], lastCtxString[this], lastCtxFields[this], *e
+//@   requires e != nil && !pooled[e]
+//@   modifies appended[this], lastLevel[this], lastTag[this], lastFields[this], lastFile[this], lastLine[this], lastTime[this], lastCtxString[this], lastCtxFields[this], *e, pooled[e]
 //@   ensures appended[this] == old(appended[this]) + 1
 //@   ensures lastLevel[this] == old(e.Level) && lastTag[this] == old(e.Tag) && lastFields[this] == old(e.Fields)
 //@   ensures lastFile[this] == old(e.File) && lastLine[this] == old(e.Line) && lastTime[this] == old(val(e.Time))
@@ -626,3 +627,54 @@ package log
 //@   requires buf != nil && !pooled[buf]
 //@   modifies buf.out, pooled[buf]
 //@   ensures[C03:reset-when-pooled] pooled[buf] ==> buf.out == bnil
+
+// ---- C01 / C05 / C16: the rolling-file logger ------------------------------------------------------------
+
+//@ ghost var startedL map[Logger]int
+
+//@ iface Logger.Start
+//@   modifies startedL[this]
+//@   ensures startedL[this] == old(startedL[this]) + 1
+
+//@ ghost var startedA map[Appender]int
+
+//@ iface Appender.Start
+//@   modifies startedA[this]
+//@   ensures startedA[this] == old(startedA[this]) + 1
+
+//@ spec fun rfa(r *AppenderRef) *RollingFileAppender = as(r.Appender, *RollingFileAppender)
+
+//@ func initRollingFileLogger
+//@   requires f != nil && fnLogger != nil
+//@   requires forall n int :: ret(fnLogger, n) != nil  // the factory always returns a logger
+//@   modifies f.logger, f.appenders, all(AppenderRefs), startedA, startedL, calls(fnLogger)
+//@   ensures[C01:split-count] len(f.appenders) == (f.Separate ? 2 : 1)
+//@   ensures[C01:normal-range] f.appenders[0] != nil && dyn(f.appenders[0].Appender, *RollingFileAppender) && f.appenders[0].Level.MinLevel == f.Level.MinLevel && f.appenders[0].Level.MaxLevel == (f.Separate ? WarnLevel : MaxLevel)
+//@   ensures[C01:normal-file] rfa(f.appenders[0]).FileName == f.FileName && rfa(f.appenders[0]).FileDir == f.FileDir && rfa(f.appenders[0]).MaxAge == f.MaxAge
+//@   ensures[C01:wf-range] f.Separate ==> f.appenders[1] != nil && dyn(f.appenders[1].Appender, *RollingFileAppender) && f.appenders[1].Level.MinLevel == WarnLevel && f.appenders[1].Level.MaxLevel == f.Level.MaxLevel
+//@   ensures[C01:wf-file] f.Separate ==> rfa(f.appenders[1]).FileName == f.FileName + ".wf" && rfa(f.appenders[1]).FileDir == f.FileDir
+//@   ensures[C01,C16:layout] f.Layout == nil ==> rfa(f.appenders[0]).Layout != nil && (f.Separate ==> rfa(f.appenders[1]).Layout != nil)
+//@   ensures[C01:attached-sync] dyn(f.logger, *SyncLogger) ==> as(f.logger, *SyncLogger).AppenderRefs.AppenderRefs == f.appenders
+//@   ensures[C01:attached-async] dyn(f.logger, *AsyncLogger) ==> as(f.logger, *AsyncLogger).AppenderRefs.AppenderRefs == f.appenders
+//@   ensures[C05:inner-logger-started] result == nil ==> f.logger != nil && startedL[f.logger] == old(startedL)[f.logger] + 1
+//@   loop 1 invariant[C05:range] 0 <= $k && $k <= len(f.appenders)
+
+//@ func (*RollingFileLogger).Append
+//@   requires f != nil && f.logger != nil && e != nil && !pooled[e]
+//@   modifies appended[f.logger], lastLevel[f.logger], lastTag[f.logger], lastFields[f.logger], lastFile[f.logger], lastLine[f.logger], lastTime[f.logger], lastCtxString[f.logger], lastCtxFields[f.logger], *e, pooled[e]
+//@   ensures[C01,C03:forward-once] appended[f.logger] == old(appended[f.logger]) + 1 && lastLevel[f.logger] == old(e.Level) && lastTag[f.logger] == old(e.Tag)
+
+//@ func (*RollingFileLogger).Write
+//@   requires f != nil && f.logger != nil
+//@   modifies rawCount[f.logger], rawLast[f.logger]
+//@   ensures[C12:forward-once] rawCount[f.logger] == old(rawCount[f.logger]) + 1 && rawLast[f.logger] == content(b)
+
+//@ spec rec fun stopR(s []*AppenderRef, k int, base Trace) Trace = k <= 0 ? base : tsnoc(stopR(s, k-1, base), 5, ifval(s[k-1].Appender), iftag(s[k-1].Appender), 0, "")
+
+//@ func (*RollingFileLogger).Stop
+//@   requires f != nil && f.logger != nil
+//@   requires forall k int :: 0 <= k && k < len(f.appenders) ==> f.appenders[k] != nil && f.appenders[k].Appender != nil
+//@   modifies stops
+//@   ensures[C05:inner-first] stops == stopR(f.appenders, len(f.appenders), tsnoc(old(stops), 4, ifval(f.logger), iftag(f.logger), 0, ""))
+//@   loop 1 invariant[C05:range] 0 <= $k && $k <= len(f.appenders)
+//@   loop 1 invariant[C05:prefix] stops == stopR(f.appenders, $k, tsnoc(old(stops), 4, ifval(f.logger), iftag(f.logger), 0, ""))
